@@ -111,6 +111,7 @@ let run_case (fields : ostring list) : ostring =
   | ["SC"; text] -> obs_scan (bytes_of_hex text)
   | ["PA"; text] -> obs_parse (bytes_of_hex text)
   | ["EV"; text; off; hosts; data] -> obs_eval (bytes_of_hex text) (z_of_dec off) hosts data
+  | "NOP" :: _ -> "-"
   | cmd :: _ -> "unknown-command:" ^ cmd
   | [] -> "empty"
 
